@@ -120,6 +120,13 @@ def deep_check(ctx, items, original=False, known=None):
             ctx.disagree("a payload walker rejects a Photoshop-written fixture (my transcription of the specification is wrong "
                          "or a deviation is not recorded)", {"file": label, "section": sect, "pos": pos, "reason": reason, "where": where})
             continue
+        if sect == "path" and path_shape_is_the_callers(b, where):
+            # the library's `Subpath` takes any records as items and `Path` takes knots at top level; a generator that builds
+            # such an object graph (a subpath inside a subpath, a fill rule among the knots, a bare knot) gets it written
+            # faithfully - the count announces the ITEMS of the object, which the format only describes when they are knots.
+            # The shape is the caller's, as with raw caller bytes (quick tier seed 42 / thorough seed 31 reported two such)
+            ctx.hist("payload_walker", "written:path object graph the format does not describe, built by the caller (skipped)")
+            continue
         if not registered_container(where) or callers_raw_bytes(b, pos):
             # an id / key psd-tools has no class for: the bytes are the caller's (a generator's blob), not the library's
             ctx.hist("payload_walker", "written:raw payload of an unregistered key / id supplied by the caller (skipped)")
@@ -359,6 +366,36 @@ def finish(ctx):
 # ------------------------------------------------------------------------------------------------ recording every walked file
 
 RAW_BLOCKS: set = set()
+
+
+def path_shape_is_the_callers(b: bytes, where):
+    """the path payload at `where`, read back by the library, is an object graph the format does not describe: a subpath
+    whose items are not all knots, or a knot outside a subpath"""
+    try:
+        from psd_tools.psd import vector as V
+        off, ln = int(where["offset"]), int(where["length"])
+        raw = b[off:off + ln]
+        path = None
+        for skip in ((12, 16, 0) if raw[:4] in (b"8BIM", b"8B64") else (0,)):     # the block header: signature, key, 4- or 8-byte length
+            try:
+                path = V.VectorMaskSetting.frombytes(raw[skip:]).path if where.get("key") in ("vmsk", "vsms") else V.Path.frombytes(raw[skip:])
+                break
+            except Exception:  # noqa
+                continue
+        if path is None:
+            return False
+
+        def odd(items, top):
+            for it in items:
+                if isinstance(it, V.Subpath):
+                    if not top or any(not isinstance(x, V.Knot) for x in it):
+                        return True
+                elif isinstance(it, V.Knot) and top:
+                    return True
+            return False
+        return odd(list(path), True)
+    except Exception:  # noqa
+        return False
 
 
 def callers_raw_bytes(b: bytes, pos: int):
